@@ -10,6 +10,7 @@ if [ "${WAVE:-1}" = "3" ]; then [ "$V" = "A" ] && DV=E; [ "$V" = "B" ] && DV=F; 
 if [ "${WAVE:-1}" = "4" ]; then [ "$V" = "A" ] && DV=G; [ "$V" = "B" ] && DV=H; fi
 if [ "${WAVE:-1}" = "5" ]; then [ "$V" = "A" ] && DV=I; [ "$V" = "B" ] && DV=J; fi
 if [ "${WAVE:-1}" = "6" ]; then [ "$V" = "A" ] && DV=K; [ "$V" = "B" ] && DV=L; fi
+if [ "${WAVE:-1}" = "7" ]; then [ "$V" = "A" ] && DV=M; [ "$V" = "B" ] && DV=N; fi
 PATCH=$SRC/patch.diff; [ -f $SRC/patch.rebased.diff ] && PATCH=$SRC/patch.rebased.diff
 export GOFLAGS=-mod=mod GOPROXY=off GOSUMDB=off GOTOOLCHAIN=local
 WT=/tmp/sv/$ID$V; rm -rf $WT; git -C /repo worktree prune; git -C /repo worktree add --detach $WT HEAD >/dev/null 2>&1 || { echo "worktree failed"; exit 2; }
